@@ -199,7 +199,26 @@ def m_sum(it, fr, x, start=0):
     return acc
 
 
+def _extremum(it, s, kind):
+    """min / max of a non-empty symbolic numeric sequence: an element that bounds all the others"""
+    RangeVal, EnumVal, Raised = _interp_types()
+    if s.ek not in ('int', 'real'):
+        raise Unsupported('%s of a sequence of %s' % (kind, s.ek))
+    ops._raise_if(s.n <= 0, 'ValueError')
+    # the extremum is a function of the sequence: the same sequence always gives the same constants
+    key = '%s!%d.%d.%d' % (kind, s.arr.get_id(), z3.simplify(s.off).get_id(), z3.simplify(s.n).get_id())
+    m = ops.mk(z3.Const(key, ops.I if s.ek == 'int' else ops.R), s.ek)
+    x = ops.mk(z3.Int(key + '.at'), 'int')
+    j = z3.Int('j!ext')
+    it.assume(z3.And(x.e >= 0, x.e < s.n, z3.Select(s.arr, s.off + x.e) == m.e))
+    e = z3.Select(s.arr, s.off + j)
+    it.pc.append(z3.ForAll([j], z3.Implies(z3.And(j >= 0, j < s.n), (m.e <= e) if kind == 'min' else (m.e >= e))))
+    return m
+
+
 def m_min(it, fr, *a):
+    if len(a) == 1 and isinstance(a[0], SSeq):
+        return _extremum(it, a[0], 'min')
     if len(a) == 1:
         a = it.concrete_items(a[0])
         if a is None:
@@ -211,6 +230,8 @@ def m_min(it, fr, *a):
 
 
 def m_max(it, fr, *a):
+    if len(a) == 1 and isinstance(a[0], SSeq):
+        return _extremum(it, a[0], 'max')
     if len(a) == 1:
         a = it.concrete_items(a[0])
         if a is None:
@@ -253,6 +274,11 @@ def m_sorted(it, fr, x):
         it.pc.append(z3.ForAll([k], z3.Implies(z3.Select(x.pred, k), z3.Exists([j], z3.And(j >= 0, j < r.n, z3.Select(r.arr, j) == k)))))
         return r
     items = it.concrete_items(x)
+    if items is not None and len(items) == 2 and all(isinstance(i, (Sym, int, Fraction)) for i in items):
+        # two numbers: [min, max]
+        a, b = items
+        lt = ops.compare('<=', a, b)
+        return [ops.ite(lt, a, b), ops.ite(lt, b, a)]
     if items is None or any(is_symbolic(i) for i in items):
         raise Unsupported('sorted of symbolic values')
     return sorted(items)
